@@ -85,6 +85,31 @@ def run(ctx):
                         ctx.fail(election="OrderedApprovalElection", approvals_needed=a, confirmations_needed=c,
                                  vector=list(v), impl=out, rule=rule_min(a + c, v),
                                  what="verdict differs from 'drift iff at least a+c report drift'")
+    # one election object re-used across calls with member lists of different lengths (an election shared by two ensembles,
+    # members added or removed): the three memoryless rules must depend on the current list only
+    rng = __import__("numpy").random.default_rng(ctx.seed)
+    shared = [("majority", "el.majority", el.SimpleMajorityElection(), lambda v: rule_simple(v))]
+    for a in (1, 2, 3):
+        shared.append((f"min {a}", f"el.min {a}", el.MinimumApprovalElection(a), lambda v, a=a: rule_min(a, v)))
+    for a, c in ((1, 1), (2, 1), (1, 2)):
+        shared.append((f"ordered {a} {c}", f"el.ordered {a} {c}", el.OrderedApprovalElection(a, c), lambda v, k=a + c: rule_min(k, v)))
+    for name, spec, e, rule in shared:
+        new(spec)
+        sizes = list(range(1, nmax + 1)) + list(range(nmax, 0, -1)) + [int(x) for x in rng.integers(1, nmax + 1, 30)]
+        hist = []
+        for n in sizes:
+            allv = list(itertools.product(STATES, repeat=n))
+            for v in [allv[int(i)] for i in rng.integers(0, len(allv), 12)] + [tuple(["drift"] * (n // 2 + 1) + [None] * (n - n // 2 - 1))]:
+                out = impl_call(e, v)
+                hist.append(list(v))
+                case = ("shared", name, len(hist))
+                vote(v, out, case)
+                ctx.case(case, any(v))
+                ctx.count("shared-instance-calls")
+                if out != rule(v):
+                    ctx.fail(election=name, vector=list(v), impl=out, rule=rule(v), earlier_calls=hist[-12:-1],
+                             what="a re-used election object answers a call from something else than the current member list "
+                                  "(verdict differs from the counting rule after calls with lists of other lengths)")
     ctx.sample({"election": "OrderedApprovalElection(1,1)", "vector": ["drift", "warning", "drift"],
                 "impl": impl_call(el.OrderedApprovalElection(1, 1), ("drift", "warning", "drift"))})
 
